@@ -25,7 +25,7 @@ func makeCert() {
 		SerialNumber: big.NewInt(1),
 		Subject:      pkix.Name{CommonName: "static.test"},
 		NotBefore:    time.Unix(0, 0),
-		NotAfter:     time.Unix(1<<40, 0),
+		NotAfter:     time.Date(2100, 1, 1, 0, 0, 0, 0, time.UTC),
 		DNSNames:     []string{"static.test"},
 	}
 	der, _ := x509.CreateCertificate(rand.Reader, tmpl, tmpl, &key.PublicKey, key)
